@@ -303,6 +303,7 @@ _add("C17", "Session 5: hole filling is modelled (Model/FillHoles.lean: componen
 _add("C09", "Session 5: `FixedDepthSTMocBuilder::buff_to_moc` is transliterated (Model/STBuilder.lean: one group of sorted space cells per time cell, consecutive time cells with the same coverage grouped) and proved: buffer_elements_exact (the elements cover a pair iff it was pushed, for every order / duplication / size), buffer_elements_canonical, buffer_elements_order_independent; "
             "tie: the ELEMENTS the real builder returns for one buffer = the model's (op st_buff). The merge of successive buffers still goes through the streaming union (specification level).")
 _add("C07", "Session 5 (FITS reader side): fits_file_roundtrip — the values the reader extracts from the table header of the written file (NAXIS1, NAXIS2, MOCDIM, ORDERING, MOCORD_S|T|F, TFORM1; get_str_val_no_quote and parse_uint_val as written, cards scanned up to END) are those of the MOC and the data bytes decode to exactly its ranges, for the three quantities (Model/FitsRead.lean, Lemmas/FitsRead.lean).")
+_add("C03", "Session 5: first_index / last_index / eq_without_depth driven and proved (first_last_index: smallest covered index, last_index - 1 the largest, absent iff empty); compute_min_depth modelled as written (trailing zeros of the OR of the bounds) and proved to be the smallest depth at which the ranges are a union of whole cells (computeMinDepth_spec); ops q_fl, q_mindepth.")
 _add("C20", "After the bug hunt the four descent theorems carry the STRICT inequality of the property (a threshold exactly on a sub-cell boundary cuts nothing and is met exactly; the code was off by a whole piece, repaired b3d1506; the model has the guards "
             "of the repaired code and the reverse lower descent recurses into itself, d3d6aa3), the harness judges the implementation with the exact sum of the pieces really cut, thresholds on every quarter / finest-piece boundary in both density orders are generated, "
             "and the sky-map reader is driven with skipped, UNSEEN and NaN pixels against the model (repaired 655082e). The whole-selection theorem selection_mass_bracket carries the strict inequality too (third conjunct; equality when no boundary cell is descended into).")
